@@ -264,7 +264,7 @@ def run(ctx, report: Report) -> None:
     list_context_table(ctx, r6)
 
     # ---- R7 (the whole pipeline by interpretation, bounded) --------------------------------------------------------------
-    r7 = report.rule('C12-R7', 'namespace selectors on a tree of mixed namespaces under two prefix maps (whole pipeline; bounded)', floor=8)
+    r7 = report.rule('C12-R7', 'namespace selectors on a tree of mixed namespaces under two prefix maps (whole pipeline; bounded)', floor=12)
     from .e2ematch import namespace_table
     namespace_table(ctx, r7)
 
